@@ -199,7 +199,7 @@ func genC12(g *Gen, tier string, idx int) *wire.Scenario {
 	return sc
 }
 
-const includeBound = 6000
+const includeBound = 60000
 const includeBomb = "verif: unbounded include recursion"
 
 type faultyReader struct {
